@@ -139,6 +139,7 @@ fn main() {
             .and_then(|b| b.as_array())
             .map(|a| a.iter().map(|v| v.as_str().unwrap_or("").to_string()).collect())
             .unwrap_or_else(|| vec!["vm".into(), "wasm".into()]);
+        set_src_path(case.get("path").and_then(|p| p.as_str()));
         let mut res = json!({"id": case["id"]});
         if backends.iter().any(|b| b == "vm") {
             res["vm"] = run_vm(&case);
@@ -147,7 +148,7 @@ fn main() {
             res["wasm"] = run_wasm(&case);
         }
         let mut out = stdout.lock();
-        writeln!(out, "{}", res).unwrap();
+        writeln!(out, "\n@@RES {}", res).unwrap();
         out.flush().unwrap();
     }
 }
